@@ -24,6 +24,8 @@ func envOr(k, d string) string {
 func main() {
 	// the live heap is dominated by the (immutable) SSA program; collect rarely
 	debug.SetGCPercent(800)
+	// ... but never let the heap run away: near the limit the collector works harder
+	debug.SetMemoryLimit(24 << 30)
 	if len(os.Args) < 2 {
 		fmt.Fprintln(os.Stderr, "usage: gosymx run|check ...")
 		os.Exit(2)
